@@ -9,7 +9,7 @@ use vmodel::*;
 
 const BIASED: [usize; 22] = [1, 2, 3, 4, 5, 7, 8, 9, 15, 16, 17, 31, 32, 33, 47, 48, 49, 63, 64, 65, 69, 70];
 
-fn boxed_len(t: &mut Tape, max: usize) -> usize {
+pub(crate) fn boxed_len(t: &mut Tape, max: usize) -> usize {
     let n = match t.weighted(&[3, 2]) {
         0 => t.pick(&BIASED),
         _ => t.usize_in(1, max),
@@ -23,11 +23,11 @@ fn bx<'a>(f: impl Fn() -> BoxedUint + 'a) -> Box<dyn Fn() -> BoxedUint + 'a> {
     Box::new(f)
 }
 
-fn nz_boxed(d: &BoxedUint) -> Result<NonZero<BoxedUint>, Fail> {
+pub(crate) fn nz_boxed(d: &BoxedUint) -> Result<NonZero<BoxedUint>, Fail> {
     Option::<NonZero<BoxedUint>>::from(NonZero::new(d.clone())).ok_or_else(|| Fail::new("NonZero::new(d) is none although d != 0"))
 }
 
-const PRECISION_MSG: &str = "the precision of the divisor must match the dividend";
+pub(crate) const PRECISION_MSG: &str = "the precision of the divisor must match the dividend";
 
 // ------------------------------------------------------------------------------------------------
 // equal precisions: every form
